@@ -5,7 +5,7 @@ FAMILIES = ['plain', 'full', 'timeout', 'shutdown', 'callback']
 PER_FAMILY = (300, 6000)
 
 
-PROOF = dict(prop_file='Props/C04.v', gen=['Worker', 'Flow', 'Pool'], theorems=['C04_one_future_per_step', 'C04_slots_conserved', 'C04_slots_invariant', 'C04_token_unique', 'C04_worker_contains_task_failures', 'C04_worker_sends_nothing_without_an_item', 'C04_token_flow_follows_the_source'], tf_families=['plain', 'full', 'timeout', 'shutdown'], tf_per_family=(100, 1500),
+PROOF = dict(prop_file='Props/C04.v', gen=['Worker', 'Flow', 'Pool', 'LockOrder'], theorems=['C04_one_future_per_step', 'C04_slots_conserved', 'C04_slots_invariant', 'C04_token_unique', 'C04_worker_contains_task_failures', 'C04_worker_sends_nothing_without_an_item', 'C04_token_flow_follows_the_source', 'C04_callbacks_run_outside_the_locks'], tf_families=['plain', 'full', 'timeout', 'shutdown'], tf_per_family=(100, 1500),
              note="exception types / __cause__ of the failed future and the 'pool stays unbroken' clause are decided by the simulation monitors, not by a theorem")
 
 
